@@ -791,6 +791,8 @@ struct World {
     i: u64,
     probes: bool,
     sparse_probes: bool,
+    /// number of names in the host listing logged last
+    last_listing: usize,
     /// offsets learned per directory number: name -> (off, index) and the order
     last_status: String,
 }
@@ -926,6 +928,7 @@ impl World {
         }
         names.sort();
         let v: Vec<Value> = names.iter().map(|(n, t)| json!([n, t])).collect();
+        self.last_listing = names.len();
         self.emit(json!({"e": "HostDir", "d": did, "names": v, "raw": raw}));
     }
 
@@ -1397,6 +1400,7 @@ fn rand_dir(w: &mut World, dir: &str, seed: u64, steps: u64, mounts: &[String]) 
     } else {
         // the "host listing" of a pseudo directory is the list of mount points below it (type: unknown)
         let v: Vec<Value> = mounts.iter().map(|m| json!([m, 0])).collect();
+        w.last_listing = mounts.len();
         w.emit(json!({"e": "HostDir", "d": did, "names": v, "raw": []}));
     }
     let maxp = |plus: bool| packed(255, plus) as u32;
@@ -1433,7 +1437,9 @@ fn rand_dir(w: &mut World, dir: &str, seed: u64, steps: u64, mounts: &[String]) 
             }
             _ => break,
         }
-        if order.len() > 20_000 {
+        // a misbehaving server must not make the driver spin: the directory is unchanged, so there is nothing
+        // to learn beyond its size
+        if order.len() > w.last_listing + 8 {
             break;
         }
     }
@@ -1562,6 +1568,7 @@ fn dir_pattern(w: &mut World, dir: &str, pat: &[(usize, usize, usize, bool)], mo
         w.host_dir(did);
     } else {
         let v: Vec<Value> = mounts.iter().map(|m| json!([m, 0])).collect();
+        w.last_listing = mounts.len();
         w.emit(json!({"e": "HostDir", "d": did, "names": v, "raw": []}));
     }
     let mut handles = Vec::new();
@@ -1592,7 +1599,9 @@ fn dir_pattern(w: &mut World, dir: &str, pat: &[(usize, usize, usize, bool)], mo
             }
             _ => break,
         }
-        if order.len() > 20_000 {
+        // a misbehaving server must not make the driver spin: the directory is unchanged, so there is nothing
+        // to learn beyond its size
+        if order.len() > w.last_listing + 8 {
             break;
         }
     }
@@ -1639,6 +1648,7 @@ fn run_scenario(s: &Scen, work: &Path, part: &str, seg: u64, abi: Option<&str>) 
         seg,
         i: 0,
         probes: true,
+        last_listing: 0,
         sparse_probes: matches!(s.kind, ScenKind::RandDir(..) | ScenKind::DirPattern(..)),
         last_status: String::new(),
     };
